@@ -1,5 +1,6 @@
 """C05 - colander output holds exactly the kept fields and levels, bit for bit."""
 import os
+import numpy as np
 import itertools
 from .. import scope, vpool, oracle
 from ..common import build, call, exc_text
@@ -105,8 +106,18 @@ def run_case(case, workdir):
             # request left there
             out = os.path.join(workdir, "out_limit_%s" % limit)
             sub = {"variables": sel, "limit_level": limit, "output": "holds the result of the previous request with this limit" if os.path.isdir(out) else "fresh"}
+            # (argument spellings: every third request gives the limit as a NumPy integer and plotfile / output as pathlib.Path
+            # objects - honoured exactly or refused, never answered for other arguments)
+            spelled = (k % 3 == 0)
+            import pathlib
+            lim_ = (np.int64(limit) if (spelled and limit is not None) else limit)
             with vpool.controlled() as ctl:
-                st, val = call(lambda: Colander(plotfile=path, limit_level=limit, output=out, variables=sel).strain())
+                st, val = call(lambda: Colander(plotfile=pathlib.Path(path) if spelled else path, limit_level=lim_,
+                                                output=pathlib.Path(out) if spelled else out, variables=sel).strain())
+            if spelled and st == "exc":
+                rec.exe([dh, sub, "spelled_refused"], nontrivial=False)
+                with vpool.controlled() as ctl:
+                    st, val = call(lambda: Colander(plotfile=path, limit_level=limit, output=out, variables=sel).strain())
             present = names if sel == ["all"] else [v for v in sel if v in names]
             nontriv = (present != names) or (limit is not None and limit < ref.nlevels - 1) or not trivial_layout
             rec.exe([dh, sub], nontrivial=nontriv, trans=1 + sum(c["n"] for c in ctl.calls))
